@@ -1,11 +1,19 @@
 (* G_ext, frame decoder: the tables dumped from the compiled crate packaged as a Ps2Impl *)
-From Coq Require Import NArith Bool List.
+From Coq Require Import NArith PArith Bool List FMapPositive.
 From PK Require Import Base.Outcome Base.Finite Base.Tree Gen.Types Impl Ext.Ps2.
 Import ListNotations.
 Local Open Scope N_scope.
 
+(* the rows indexed through a binary trie: a look-up must not cost a walk down a list of (possibly tens of
+   thousands of) states *)
+Definition ext_ps2_map :=
+  snd (fold_left (fun (acc : positive * PositiveMap.t _) r => (Pos.succ (fst acc), PositiveMap.add (fst acc) r (snd acc)))
+                 ext_ps2_table (1%positive, PositiveMap.empty _)).
 Definition ext_ps2_row (s : N) :=
-  nth (N.to_nat s) ext_ps2_table (Panic, Panic, Panic).
+  match PositiveMap.find (N.succ_pos s) ext_ps2_map with
+  | Some r => r
+  | None => (Panic, Panic, Panic)
+  end.
 
 Definition ext_ps2 : Ps2Impl := {|
   ps_st := N;
